@@ -6,6 +6,9 @@ Anything not overridden falls through to real numpy (dtype objects, constants, .
 """
 from __future__ import annotations
 
+import os
+import sys
+
 import builtins
 import math
 
@@ -1228,10 +1231,38 @@ isnan = _un(_isnan1, _np.isnan)
 isfinite = _un(_isfinite1, _np.isfinite)
 
 
+def _const_value(x):
+    """python number behind a proxy whose expression is a constant, else None"""
+    import z3
+    if isinstance(x, (builtins.int, builtins.float, _np.integer, _np.floating)):
+        return x
+    if isinstance(x, SInt):
+        e = z3.simplify(x.e)
+        return e.as_long() if z3.is_int_value(e) else None
+    if isinstance(x, SReal):
+        nan = z3.simplify(x.nan) if not isinstance(x.nan, bool) else x.nan
+        if z3.is_true(nan) if not isinstance(nan, bool) else nan:
+            return builtins.float("nan")
+        if not (z3.is_false(nan) if not isinstance(nan, bool) else not nan):
+            return None
+        e = z3.simplify(x.v)
+        if z3.is_rational_value(e):
+            return e.numerator_as_long() / e.denominator_as_long()
+        return None
+    return None
+
+
 def _transcend(name):
     def f(x, *a, **kw):
         if _sym(x):
-            raise Inconclusive(f"np.{name} on symbolic data is outside the encoding")
+            # data that is concrete behind its proxies (e.g. after the harness let the solver enumerate it) is handed to numpy
+            items, shape = _tolist(x)
+            vals = [_const_value(y) for y in items]
+            if _b_any(v is None for v in vals):
+                if os.environ.get("VERIF_DEBUG"):
+                    print("non-constant items:", [(type(y).__name__, y) for y, v in zip(items, vals) if v is None][:3], file=sys.stderr)
+                raise Inconclusive(f"np.{name} on symbolic data is outside the encoding")
+            x = _np.array(vals, dtype=float).reshape(shape)
         return getattr(_np, name)(x, *a, **kw)
     return f
 
@@ -1306,8 +1337,23 @@ def ndim(x):
 
 
 def lexsort(keys):
-    if _sym(keys):
-        raise Inconclusive("lexsort on symbolic keys")
+    if _b_any(_sym(k) for k in keys) if isinstance(keys, (list, tuple)) else _sym(keys):
+        # stable insertion sort by the LAST key first (numpy's convention); comparisons fork
+        cols = [_A(k).items for k in reversed(list(keys))]
+        n = len(cols[0])
+
+        def less(i, j):
+            c = False
+            for col in reversed(cols):          # build from the least significant key outwards
+                c = or_(col[i] < col[j], and_(col[i] == col[j], c))
+            return c
+        out = []
+        for i in range(n):
+            pos = len(out)
+            while pos > 0 and bool(less(i, out[pos - 1])):
+                pos -= 1
+            out.insert(pos, i)
+        return _wrap(_np.array(out, dtype=_np.intp))
     return _wrap(_np.lexsort(keys))
 
 
